@@ -245,7 +245,35 @@ def _c04_nontrivial(docs):
     return len(docs) >= 2 and any(has_del(d) for d in docs[1:])
 
 
+def _gen_c01(rng, max_stages):
+    g = S.Gen(rng, keys=("a", "b", "_u", "c", 0, 1, 2.5), atoms=(1, 0, "x", "", None, True, False, 2.5, -3, "1", "yes"),
+              tags=("force", "weak", "del", "merge", "new", "unsafe", "md"), max_depth=rng.choice([2, 3, 4, 5]), max_width=4,
+              p_tag=0.4, p_empty=0.12)
+    return [g.doc()], [True]
+
+
+def _c01_nontrivial(docs):
+    def f(sd):
+        return sd["form"] != "none" or any(f(c) for _, c in sd["ch"])
+    return f(docs[0])
+
+
 BUILDER = {
+    "C01": {
+        "invariants": ["Inv_C01"],
+        "driver": "builder+evaluate",
+        "exh": {"quick": [("C01_DocsQ", 1, 1)], "thorough": [("C01_Docs", 1, 1), ("C01_Docs2", 1, 1)]},
+        "mutations": [{"switch": "DeepWrapRefills", "docs": "C01_DocsQ", "stages": (1, 1), "expect": ["Inv_C01"]},
+                      {"mutation": "DropUnderscoreKeys", "docs": "C01_DocsQ", "stages": (1, 1), "expect": ["Inv_C01"]}],
+        "gen": _gen_c01, "random": {"quick": 1000, "thorough": 40000}, "max_stages": 1,
+        "nontrivial": _c01_nontrivial,
+        "rule": "A: single mapping documents: every key type (str, '_'-prefixed str, int, float) x every scalar type (int, 0, str, '', "
+                "float, bool, None) and empty / small containers x each of the 7 merge-control tags, !metadata with user data and with "
+                "several flags at once, on the value and on the document; and a -> b -> c chains with a tag at any level above lists "
+                "and mappings nested two and three levels below it; each document is built and EVALUATED (Config), compared with TLC's "
+                "Erase(doc) and with PyYAML's own load of the tag-erased text (== and recursive type()); B: seeded random documents "
+                "(depth<=5, 7 key names of all key types, all tags). non-trivial = the document carries at least one tag; distinct by content",
+    },
     "C02": {
         "invariants": ["Inv_C02", "Inv_C02_NoKeyLost", "Inv_C02_Frame"],
         "exh": {"quick": [("C02_Docs3", 1, 3), ("C02_Docs2q", 2, 2)],
@@ -549,7 +577,7 @@ _BUILDER_NOTE = ("trusted: TLC 1.8, the YAML renderer and the projection of harn
                  "bounded universes (named in the evidence); direction B samples larger inputs, it does not enumerate them")
 ENGINES = [
     {"name": "builder-family", "path": "/verif/harness/builderfam.py",
-     "serves_properties": sorted(["C02", "C03", "C04", "C05", "C08", "C14", "C15", "C16"]),
+     "serves_properties": sorted(["C01", "C02", "C03", "C04", "C05", "C08", "C14", "C15", "C16"]),
      "kind_free_text": "TLC over spec/MC_Build.tla (AyBuild state machine: AddSource / FlattenFirst / MergeStage / Finish over "
                        "AyParse + AyMerge) checks the property invariants on every history of a bounded document universe and prints "
                        "each behaviour; every behaviour is replayed through the real Builder; recorded traces of seeded larger "
@@ -668,6 +696,15 @@ META["C07"] = {"engine": "eval-family", "design_ref": "DESIGN.md 5/C07",
             "recorded random histories judged by TLC on the logged call log (names + received data); mutations DefaultSafeOverwrite "
             "(the pre-fix code), NoArgGate and NoFnGate must be refuted.",
     "note": _EVAL_NOTE + "; !eval / f-string nodes are covered by the opaque gate only (their name resolution is C12); include-by-unsafe-content is C06's file-system model"}
+META["C01"] = {"engine": "builder-family", "design_ref": "DESIGN.md 5/C01",
+    "technique": "TLC model checking of AyParse/AyBuild (single-stage) + behaviour replay / trace validation against the library, PyYAML as cross-check",
+    "text": "AyParse specifies how a surface document becomes a node tree (tag -> explicit flags; top-down construction outside tags, "
+            "bottom-up deep construction below a tag; adoption and flag propagation). TLC checks that the data of the parsed tree equals "
+            "the tag-free reading Erase(doc) and that every container holds each child exactly once in order (FilledOnce), for every "
+            "enumerated document x tag placement; mutation DeepWrapRefills (the pre-fix loader) and DropUnderscoreKeys must be refuted. "
+            "Each document is rendered to YAML text, built and evaluated by the library; the evaluated config (exact types) is compared "
+            "with TLC's expectation and with yaml.load of the tag-erased text; random deeper documents are validated by TLC.",
+    "note": _BUILDER_NOTE + "; keys equal to attribute names of the node classes are excluded as the statement says; YAML anchors/aliases are not generated"}
 NOT_APPLICABLE = {}
 
 
